@@ -39,10 +39,11 @@ def instances(tier: str) -> list[dict]:
 
     if tier == "quick":
         add("T4", "neutral", batches=True)
-        add("T4", "adv")
+        add("T4", "adv", batches=True)
         add("T5b", "neutral", kinds=("named",), skip_root=True)
+        add("T5e", "neutral", kinds=("named",))
     else:
-        for t in ("T4", "T5a", "T5b", "T5c", "T5d"):
+        for t in ("T4", "T5a", "T5b", "T5c", "T5d", "T5e"):
             add(t, "neutral", batches=True)
         add("T5a", "adv")
         add("T5b", "adv")
@@ -77,6 +78,11 @@ def laws(inst) -> list[tuple[str, str, list[RuleSpec]]]:
 
 def alias_laws(inst):
     out = []
+    if len(inst["S"]) > 1 and inst["sk"] == "named":
+        # batched alias: 'S should not import anything' == 'S should not import modules except S'
+        S = tuple(inst["S"])
+        for d in ("import", "imported"):
+            out.append((f"alias-batch/{d}", "same", [RuleSpec("should_not", d, False, "named", S, "named", (), True), RuleSpec("should_not", d, True, "named", S, "named", S)]))
     if inst["S"] == inst["O"] and inst["sk"] == inst["ok"]:
         for d in ("import", "imported"):
             out.append((f"alias/{d}", "same", [_spec(inst, "should_not", d, False, anything=True), _spec(inst, "should_not", d, True)]))
